@@ -462,6 +462,16 @@ def _space(tier: str) -> dict[str, Any]:
                 if any(s1 == "$" and s2 == "{" for (_c1, s1), (_c2, s2) in zip(combo, combo[1:])):
                     continue
                 cases.append(("s", "output", "".join(c for c, _ in combo), quote + "".join(s for _, s in combo) + quote))
+    # code-point sweep: the first, a middle and the last code point of every plane (surrogates excluded), literal and as
+    # \u escapes (a surrogate pair above the BMP), alone and between two ASCII letters, at every site
+    for plane in range(0, 17):
+        for low in (0x0000, 0x0001, 0x7A5B, 0xFFFE, 0xFFFF) if plane else (0x00A0, 0x0800, 0xD7FF, 0xE000, 0xFFFD):
+            ch = chr((plane << 16) | low)
+            for quote in ("'", '"'):
+                for sp in (ch, _u(ch), _u(ch, True)):
+                    for site in SITES:
+                        cases.append(("s", site, ch, quote + sp + quote))
+                    cases.append(("s", "output", "a" + ch + "z", quote + "a" + sp + "z" + quote))
     for n, sp in int_spellings():
         for site in NUM_SITES:
             cases.append(("i", site, n, sp))
